@@ -480,6 +480,8 @@ func ReplMain(cfg *ZlispConfig) {
 		env.AddPostHook(CountPostHook)
 	}
 
+	verifReplEnv(env)
+
 	if cfg.Command != "" {
 		_, err := env.EvalString(cfg.Command)
 		if err != nil {
